@@ -725,4 +725,90 @@ theorem src_with_eq_runScript (cfg : Cfg) (sc : Script) (plan : Plan) (fs : FS) 
       | osErr e2 => simp [exitResult, ho, codeOf_excOf]
   · simp [codeOf_excOf]
 
+/-! ## the property theorems, about what the source computes -/
+
+/-- **Every run of the SOURCE is accepted** (`C05.transliteration_runs_are_accepted` transported along the tie): for
+    every configuration, script and fault plan without interference by another process and without an injected ENOENT,
+    what a recorder of the calls of the generated `__enter__` / `__exit__` observes (`M.obs`) is accepted by
+    `C05.Accept` - hence every `accepted_*` theorem of the acceptance layer holds of the source's own runs. -/
+theorem src_runs_are_accepted (cfg : Cfg) (sc : Script) (plan : Plan) (fs0 : FS) (e : Nat) (hm : ModesOk fs0)
+    (hne : ∀ k, plan k ≠ .appear) (hnn : ∀ k, plan k ≠ .fail ENOENT) :
+    Accept cfg sc.raises (decide ((srcWith cfg sc plan fs0 e).1 = .ok)) sc.content fs0.umask fs0.destMode
+      (srcWith cfg sc plan fs0 e).2.obs = true := by
+  rw [src_with_eq_runScript cfg sc plan fs0 e hm]
+  exact transliteration_runs_are_accepted cfg sc plan fs0 e hne hnn
+
+/-- **A fault-free save by the SOURCE emits the safe trace** (`C04.saver_emits_safeTrace` /
+    `C05.nofault_trace_is_saverTrace` along the tie): with a write-only block and nothing in the way, the successful
+    events of the generated code are exactly `C04.saverTrace`, which satisfies `C04.SafeTrace`. -/
+theorem src_nofault_trace_is_safe (cfg : Cfg) (body : Body) (fs0 : FS) (e : Nat) (hm : ModesOk fs0)
+    (hpart : fs0.dir.part = none ∨ cfg.overwritePart = true) (hdest : fs0.dir.dest = none ∨ cfg.overwrite = true) :
+    (srcWith cfg (Script.ofBody body) noFaults fs0 e).2.tr = saverTrace cfg fs0 body ∧
+    SafeTrace (srcWith cfg (Script.ofBody body) noFaults fs0 e).2.tr = true := by
+  rw [src_with_eq_runScript cfg _ noFaults fs0 e hm]
+  have h := nofault_trace_is_saverTrace cfg body fs0 e hpart hdest
+  simp only [fin] at h
+  simp only [erase_tr, h]
+  exact ⟨trivial, C04.saver_emits_safeTrace cfg fs0 body⟩
+
+/-- **A failed save by the SOURCE leaves the destination alone** (`C05.failed_save_preserves_dest` along the tie is in
+    Props; here the directly checkable core): the file system the generated code leaves IS the transliteration's -/
+theorem src_fs_eq_model (cfg : Cfg) (sc : Script) (plan : Plan) (fs0 : FS) (e : Nat) (hm : ModesOk fs0) :
+    (srcWith cfg sc plan fs0 e).2.fs = (fin cfg sc plan fs0 e).fs ∧
+    (srcWith cfg sc plan fs0 e).2.tr = (fin cfg sc plan fs0 e).tr ∧
+    (srcWith cfg sc plan fs0 e).2.obs = (fin cfg sc plan fs0 e).obs ∧
+    (srcWith cfg sc plan fs0 e).1 = out cfg sc plan fs0 e := by
+  rw [src_with_eq_runScript cfg sc plan fs0 e hm]
+  exact ⟨rfl, rfl, rfl, rfl⟩
+
+/-! ## non-vacuity: the generated definitions evaluated on concrete worlds (kernel `decide`) -/
+
+example : ModesOk fsEx ∧ ModesOk fsEx2 := by
+  constructor <;> (intro i hi; simp [fsEx, fsEx2, envInode, envMode] at hi; rcases hi with rfl | rfl <;> decide)
+
+/-- a complete save through the generated `__enter__` / `__exit__`: published content, mode of the replaced file -/
+example : (srcWith {} bodyEx noFaults fsEx 1).1 = .ok ∧
+    (srcWith {} bodyEx noFaults fsEx 1).2.fs.readDest = some [78, 69, 87] ∧
+    (srcWith {} bodyEx noFaults fsEx 1).2.fs.destMode = some 0o640 ∧
+    (srcWith {} bodyEx noFaults fsEx 1).2.fs.dir.part = none := by decide
+
+/-- `os.fsync` made to fail (a non-OSError class, 1002): the exception reaches the caller, the destination keeps its
+    old content, the part file is removed -/
+example : (srcWith {} bodyEx (failAt 7 1002) fsEx 1).1 = .osErr 1002 ∧
+    (srcWith {} bodyEx (failAt 7 1002) fsEx 1).2.fs.readDest = some [79, 76, 68] ∧
+    (srcWith {} bodyEx (failAt 7 1002) fsEx 1).2.fs.dir.part = none := by decide
+
+/-- a stale part file without `overwrite_part`: `os.open(O_EXCL)` refuses, the stale file is left as it was -/
+example : (srcWith {} bodyEx noFaults fsEx2 1).1 = .osErr EEXIST ∧
+    (srcWith {} bodyEx noFaults fsEx2 1).2.fs.readPart = some [9, 9] := by decide
+
+/-- `overwrite=False` and the destination exists: refused before any call -/
+example : (srcWith { overwrite := false } bodyEx noFaults fsEx 1).1 = .osErr EEXIST ∧
+    (srcWith { overwrite := false } bodyEx noFaults fsEx 1).2.n = 0 := by decide
+
+/-- the block raises: `__exit__` returns normally (the block's exception goes on), part file removed -/
+example : (srcWith {} ⟨[.write [1] 0], true⟩ noFaults fsEx 1).1 = .bodyExc ∧
+    (srcWith {} ⟨[.write [1] 0], true⟩ noFaults fsEx 1).2.fs.dir.part = none ∧
+    (srcWith {} ⟨[.write [1] 0], true⟩ noFaults fsEx 1).2.fs.readDest = some [79, 76, 68] := by decide
+
+/-- the single methods on concrete worlds: `_rm_part_on_exc` swallows a failing unlink; `atomic_rename` without
+    `overwrite` links and unlinks; `set_cloexec` changes nothing; `replace` renames; `_open_part_file`, `setup`,
+    `__enter__` create the part file with the mode of the replaced file and hand out the file object -/
+example : (AtomicSaver.rm_part_on_exc (msys (failAt 0 13)) (conc {} none) (erase (M.start fsEx2 1))).1.toOption = some () ∧
+    (AtomicSaver.rm_part_on_exc (msys (failAt 0 13)) (conc {} none) (erase (M.start fsEx2 1))).2.2.fs.dir.part = some 0 ∧
+    (AtomicSaver.rm_part_on_exc (msys noFaults) (conc {} none) (erase (M.start fsEx2 1))).2.2.fs.dir.part = none := by decide
+example : (atomic_rename (msys noFaults) Role.part Role.dest false (erase (M.start fsEx2 1))).2.tr = [.linkPartDest, .unlinkPart] ∧
+    (atomic_rename (msys noFaults) Role.part Role.dest true (erase (M.start fsEx2 1))).2.tr = [.renamePartDest] ∧
+    (replace (msys noFaults) Role.part Role.dest (erase (M.start fsEx2 1))).2.tr = [.renamePartDest] ∧
+    (set_cloexec (msys noFaults) () (erase (M.start fsEx2 1))).1.toOption = some () ∧
+    (set_cloexec (msys noFaults) () (erase (M.start fsEx2 1))).2.n = 0 := by decide
+example : (AtomicSaver.open_part_file (msys noFaults) (conc {} none) (erase (M.start fsEx 1))).2.2.tr
+      = [.openPart true true 0o640, .noop, .chmodPart 0o640] ∧
+    (AtomicSaver.setup (msys noFaults) (conc { overwritePart := true } none) (erase (M.start fsEx2 1))).2.2.tr
+      = [.unlinkPart, .openPart true true 0o666, .noop] ∧
+    (AtomicSaver.enter (msys noFaults) (conc {} none) (erase (M.start fsEx 1))).1.toOption = some (some ()) ∧
+    (AtomicSaver.exit (msys noFaults) (conc {} (some ())) none none none
+        (AtomicSaver.enter (msys noFaults) (conc {} none) (erase (M.start fsEx 1))).2.2).2.2.tr
+      = [.openPart true true 0o640, .noop, .chmodPart 0o640, .flush, .fsync, .close, .renamePartDest] := by decide
+
 end C05
